@@ -12,6 +12,7 @@ def rules(ctx):
     S.c01_r2_grow(ctx)
     S.c01_r3_owners(ctx)
     S.c01_r4_non_durable(ctx)
+    S.c01_r5_cow(ctx)
     S.c01_r6_checksums_final(ctx)
     S.c01_r7_latch(ctx)
     S.c01_r8_open_recovery(ctx)
